@@ -304,6 +304,16 @@ def classify_iterable(it: Term, q: Term) -> str:
     it = strip_versions(it)
     if it == q:
         return 'live'
+    if isinstance(q, Attr):
+        reg = Attr(q.base, 'systems')
+        cur = it
+        for _ in range(3):
+            if isinstance(cur, Fresh) and cur.kind in ('call:list', 'call:tuple', 'copy') and cur.items:
+                cur = strip_versions(cur.items[0])
+            elif isinstance(cur, App) and cur.fn in ('.values', '.keys', '.items') and cur.args:
+                cur = strip_versions(cur.args[0])
+        if cur == reg and it != q:
+            return 'registry'     # the id -> system map: registration order
     if isinstance(it, Attr) and isinstance(q, Attr) and it.base == q.base and it.name != q.name:
         return 'stored'       # another field of the scheduler: a snapshot kept across calls
     if isinstance(it, Fresh):
@@ -800,3 +810,104 @@ def module_state_reads(fn: FuncInfo) -> List[ast.AST]:
         elif isinstance(n, (ast.Global, ast.Nonlocal)):
             out.append(n)
     return out
+
+
+# ---------------------------------------------------------------------------------------------- premises
+def include_premises(cx: Cx, pids: List[str], why: str = '', only=None):
+    """A property that is stated over behaviour another property's rules establish (a collector records once per
+    scheduled timestep only if the scheduler runs each system once) re-checks those rules on the current tree and reports
+    their violations as its own: breaking the premise breaks this property as well.  `only(obligation) -> bool` restricts the
+    forwarding to the rules this property really rests on.  Inconclusive obligations and the origin property's open known
+    findings are not forwarded; premises are not followed transitively."""
+    if getattr(cx, 'is_premise', False):
+        return
+    import importlib
+    from sa.report import load_known, Obligation
+    for q in pids:
+        sub = Cx(q, cx.prog, cx.tier)
+        sub.ti, sub.walker, sub._effects = cx.ti, cx.walker, cx._effects
+        sub.is_premise = True
+        importlib.import_module(f"props.{q.lower()}").run(sub)
+        if cx._effects is None:
+            cx._effects = sub._effects
+        known = {k.key for k in load_known() if k.pid == q and k.status == 'open'}
+        n = 0
+        seen = set()
+        for o in sub.violations():
+            if o.key in known or o.key in seen or (only is not None and not only(o)):
+                continue
+            seen.add(o.key)
+            n += 1
+            cx.obs.append(Obligation(o.rule, o.instance, 'violation', o.where, o.function, dict(o.facts, premise_of=q), key=o.key,
+                                     message=f"[rule of {q}, which this property depends on{': ' + why if why else ''}] {o.message}",
+                                     path=list(o.path)))
+        if n == 0:
+            cx.ok('PREMISE', f"{q}: the rules this property depends on hold ({len([o for o in sub.obs if o.verdict == 'ok'])} obligations)",
+                  function=q)
+
+
+# ---------------------------------------------------------------------------------------------- presence vs. truthiness
+REGISTRY_FIELDS = {(CORE + 'SystemManager', 'systems'), (CORE + 'Environment', 'agents'), (CORE + 'Agent', 'components'),
+                   (CORE + '_MetaAgent', '_components')}
+
+
+def object_truthiness_atoms(cx: Cx, fn: FuncInfo, formula) -> List[Term]:
+    """Terms whose TRUTH VALUE the formula tests although they denote a system / agent / component object (an element of
+    one of the registries, or an expression of such a class).  These classes are open: Agent itself defines __len__ (an
+    agent without components is falsy), user systems and components may define __len__ / __bool__; presence has to be
+    tested by membership or `is None`."""
+    from sa.walker import _Ctx
+    from sa.terms import atoms_of
+    c = _Ctx(cx.walker, fn, WalkOptions())
+    open_roots = [cx.prog.cls(CORE + n) for n in ('Agent', 'System', 'Component')]
+    out = []
+    for a in atoms_of(formula):
+        if not isinstance(a, ATruthy):
+            continue
+        t = strip_versions(a.t)
+        cont = None
+        if isinstance(t, App) and t.fn == '.get' and len(t.args) in (2, 3) and (len(t.args) == 2 or t.args[2] == Const(None)):
+            cont = t.args[0]
+        elif isinstance(t, Sub):
+            cont = t.base
+        hit = False
+        if cont is not None:
+            loc = c.loc_of_term(Sub(strip_versions(cont), Const(0)))
+            if loc in REGISTRY_FIELDS or (loc is None and isinstance(strip_versions(cont), Attr) and
+                                          strip_versions(cont).name in {f for _, f in REGISTRY_FIELDS}):
+                hit = True
+        if not hit:
+            try:
+                tt = c.term_type(t)
+            except Exception:
+                tt = None
+            if tt and tt[0] == 'inst' and any(cx.prog.is_subclass(tt[1], r) for r in open_roots):
+                hit = True
+        if hit:
+            out.append(t)
+    return out
+
+
+def check_presence_not_truthiness(cx: Cx, quals: List[str], rule='R-NONE'):
+    """No branch of the listed functions decides on the truth value of a system / agent / component object."""
+    n = 0
+    for q in quals:
+        fn = cx.fn(q)
+        bad = None
+        for p in cx.walker.paths(fn, WalkOptions(unroll=1, callee_raises=False)):
+            for e in p.events:
+                if e.kind != 'cond':
+                    continue
+                n += 1
+                ts = object_truthiness_atoms(cx, fn, e.data['formula'])
+                if ts and bad is None:
+                    bad = (e, ts[0])
+        if bad is not None:
+            e, t = bad
+            cx.violation(rule, fn.qualname, 'presence-decided-by-membership-not-truthiness',
+                         f"{fn.qualname} branches on the truth value of {t!r}, an object of an open class (agents define __len__, user "
+                         f"systems / components may): a registered but falsy object is treated as absent", where=cx.where(fn, e.line))
+        else:
+            cx.ok(rule, f"{fn.name}: no branch on the truth value of a system / agent / component object", where=cx.where(fn),
+                  function=fn.qualname)
+    return n
